@@ -331,8 +331,16 @@ class _Render(object):
             L.append(ind + 'while d():')
             self.block(s[1], ind + '    ')
         elif t == 'for':
-            tv = self.rng.choice(['i', 'x', 'j'])
+            # mostly a loop-private target (never bound elsewhere, never read after the loop): re-using a variable as
+            # for-target is the shape of a known pinned-tree defect and is kept to a minority stream
+            if self.rng.random() < 0.8:
+                self.nloop = getattr(self, 'nloop', 0) + 1
+                tv = 'k%d' % self.nloop
+            else:
+                tv = self.rng.choice(['i', 'x', 'j'])
             L.append(ind + 'for %s in n():' % tv)
+            if tv.startswith('k') and self.rng.random() < 0.5:
+                L.append(ind + '    tr(%d, %s)' % (self.slot(), tv))
             self.block(s[1], ind + '    ')
         elif t == 'with':
             k = self.slot()
@@ -345,7 +353,7 @@ class _Render(object):
             self.nfn += 1
             g = 'g%d' % self.nfn
             L.append(ind + 'def %s():' % g)
-            mode = self.rng.randrange(3) if self.init else self.rng.choice([0, 2])
+            mode = self.rng.choice([0, 1, 2, 2, 2, 2, 2, 2]) if self.init else self.rng.choice([0, 2, 2, 2])
             if mode == 0:
                 L.append(ind + '    nonlocal x'); self.features.add('nonlocal')
             elif mode == 1:
@@ -611,10 +619,13 @@ class _Gen(object):
         if c < 0.70:
             F.add('for')
             form = r.randrange(5)
+            self.nloopv = getattr(self, 'nloopv', 0) + 1
+            priv = 'k%d' % self.nloopv
+            tgt = priv if r.random() < 0.8 else r.choice(['i', 'j', v])
             if form == 0:
-                self.emit(ind, 'for %s in range(%s):' % (r.choice(['i', 'j', v]), r.choice(['2', '3', 'a % 3', 'len(l)', '0'])))
+                self.emit(ind, 'for %s in range(%s):' % (tgt, r.choice(['2', '3', 'a % 3', 'len(l)', '0'])))
             elif form == 1:
-                self.emit(ind, 'for %s in l:' % r.choice(['i', 'j', v]))
+                self.emit(ind, 'for %s in l:' % tgt)
             elif form == 2:
                 F.add('for_tuple_target')
                 self.emit(ind, 'for i, %s in [(1, a), (2, b)]:' % v)
@@ -623,7 +634,7 @@ class _Gen(object):
                 self.emit(ind, 'for i, %s in enumerate(l):' % v)
             else:
                 F.add('for_iterator')
-                self.emit(ind, 'for %s in iter((a, b, c)):' % r.choice(['i', v]))
+                self.emit(ind, 'for %s in iter((a, b, c)):' % tgt)
             self.loopdepth += 1
             self.block(ind + '    ', depth - 1, True, infin)
             self.loopdepth -= 1
@@ -673,7 +684,7 @@ class _Gen(object):
             g = 'g%d' % self.nfn
             p = r.choice(['', 'p', 'p, q=1'])
             self.emit(ind, 'def %s(%s):' % (g, p))
-            if r.random() < 0.5:
+            if r.random() < 0.2:
                 F.add('nonlocal')
                 self.emit(ind + '    ', 'nonlocal %s' % v)
                 self.emit(ind + '    ', '%s = %s' % (v, self.iexpr(1)))
